@@ -1,6 +1,109 @@
-/-! Driver entry for property C23 (stub: not implemented yet). -/
-namespace HeartwoodModel.Driver.C23
+import HeartwoodModel.Model.Dag
+import HeartwoodModel.Driver.Util
+/-! Driver entry for C23. Case: `<script> <query> <arg>…`.
 
-def run (_args : List String) : String := "unimplemented"
+`script` = comma list of `n<k>:<v>` (node), `d<a>:<b>` (dependency a→b), `x<k>` (remove), `-` = empty.
+Queries: `dump` · `sorted <ranks>` · `fold <roots> <brk>` · `prune <roots> <brk> <mode>` ·
+`remove <k>` · `merge <script2>`; `ranks` = comma list `k:r` (default rank 0), `-` = none.
+Dump: `k:v:deps:dependents;…|tips|roots` (lists joined by `+`, `_` = empty). -/
+namespace HeartwoodModel.Driver.C23
+open HeartwoodModel.Dag HeartwoodModel.Driver.Util
+
+abbrev G := Dag Nat
+
+def pair? (s : String) : Option (Nat × Nat) :=
+  match splitOn s ':' with
+  | [a, b] => do let a ← nat? a; let b ← nat? b; some (a, b)
+  | _ => none
+
+/-- `none` = malformed, `some none` = fuel. -/
+def applyOp (g : G) (op : String) : Option (Option G) :=
+  match op.toList with
+  | 'n' :: rest => (pair? (String.ofList rest)).map fun (k, v) => some (g.node k v)
+  | 'd' :: rest => (pair? (String.ofList rest)).map fun (a, b) => some (g.dependency a b)
+  | 'x' :: rest => (nat? (String.ofList rest)).map fun k => g.remove (g.fuelFor 1) k
+  | _ => none
+
+def build (script : String) : Option (Option G) :=
+  let ops := if script == "-" then [] else splitOn script ','
+  ops.foldl (fun acc op =>
+    match acc with
+    | some (some g) => applyOp g op
+    | other => other) (some (some Dag.empty))
+
+def showList (xs : List Nat) : String := if xs.isEmpty then "_" else joinWith "+" (xs.map toString)
+
+def dump (g : G) : String :=
+  let nodes := g.graph.map fun (k, n) => s!"{k}:{n.value}:{showList n.deps}:{showList n.dependents}"
+  s!"{joinWith ";" nodes}|{showList g.tipsOf}|{showList g.rootsOf}"
+
+def ranks? (s : String) : Option (List (Nat × Nat)) :=
+  if s == "-" then some [] else (splitOn s ',').mapM pair?
+
+def rankOf (t : List (Nat × Nat)) (k : Nat) : Nat :=
+  match t.find? (·.1 == k) with
+  | some p => p.2
+  | none => 0
+
+def leMode (mode : Nat) (x y : Nat × Nat) : Bool :=
+  match mode with
+  | 0 => decide (x.1 ≤ y.1)
+  | 1 => decide (x.2 ≤ y.2)
+  | 2 => decide (x.2 < y.2) || (x.2 == y.2 && decide (x.1 ≤ y.1))
+  | _ => decide (y.1 ≤ x.1)
+
+def query (g : G) : List String → String
+  | ["dump"] => "ok " ++ dump g
+  | ["sorted", rk] =>
+    match ranks? rk with
+    | some t =>
+      match g.sortedBy (fun a b => compare (rankOf t a) (rankOf t b)) (g.fuelFor g.len) with
+      | some ord => "ok " ++ showList ord
+      | none => "fuel"
+    | none => "bad-op"
+  | ["fold", roots, brk] =>
+    match nats? roots, nats? brk with
+    | some roots, some brk =>
+      match g.fold (g.fuel2 roots.length) roots ([] : List Nat)
+          (fun acc k _ => (k :: acc, !brk.contains k)) with
+      | .ok acc => "ok " ++ showList acc.reverse
+      | .panic => "panic"
+      | .fuel => "fuel"
+    | _, _ => "bad-op"
+  | ["prune", roots, brk, mode] =>
+    match nats? roots, nats? brk, nat? mode with
+    | some roots, some brk, some mode =>
+      match g.pruneBy (g.fuel2 roots.length) roots
+          (fun (acc : List String) k _ sibs =>
+            (s!"{k}[{showList (sibs.map (·.1))}]" :: acc, !brk.contains k))
+          (leMode mode) [] with
+      | some (g', acc) => "ok " ++ joinWith "," acc.reverse ++ "#" ++ dump g'
+      | none => "fuel"
+    | _, _, _ => "bad-op"
+  | ["remove", k] =>
+    match nat? k with
+    | some k =>
+      match g.remove (g.fuelFor 1) k with
+      | some g' => "ok " ++ dump g'
+      | none => "fuel"
+    | none => "bad-op"
+  | ["merge", script2] =>
+    match build script2 with
+    | some (some other) =>
+      match g.merge other (other.fuelFor other.roots.length) with
+      | some g' => "ok " ++ dump g'
+      | none => "fuel"
+    | some none => "fuel"
+    | none => "bad-op"
+  | _ => "bad-op"
+
+def run (args : List String) : String :=
+  match args with
+  | script :: q =>
+    match build script with
+    | some (some g) => query g q
+    | some none => "fuel"
+    | none => "bad-op"
+  | _ => "bad-op"
 
 end HeartwoodModel.Driver.C23
